@@ -1,3 +1,5 @@
+import NrDaemon.Props.Reviewed
+import NrDaemon.Gen.Skeleton
 import NrDaemon.Lemmas.Proc
 import NrDaemon.Gen.Worker
 import NrDaemon.Gen.Skeleton
@@ -69,3 +71,9 @@ def reviewedCleanExit : List String := [
 
 /-- **C11 (tie: the flush the model describes is the code's).** -/
 theorem C11_cleanexit_source_tied : Gen.Skeleton.cleanExit = reviewedCleanExit := rfl
+
+
+/-! ## Ties to the current source: the functions transcribed by the model have not changed since they were reviewed (`Props/Reviewed.lean`) -/
+
+/-- **C11 (tie).**  `runLoop`: the loop stops only by taking the quit message in its select. -/
+theorem C11_run_loop_source_tied : Gen.Skeleton.runLoop = Reviewed.runLoop := rfl
